@@ -1619,6 +1619,8 @@ _C = 'aggregates/classification.py'
 _T = 'aggregates/retrieval.py'
 _MC = 'metrics/classification.py'
 VARIANTS = [
+    OK('relative-difference-converted-with-an-explicit-copy', 'aggregates/rolling_stats.py',
+       "    x = np.asarray(x).astype('float64')\n    y = np.asarray(y).astype('float64')\n", "    x = np.array(x, dtype='float64')\n    y = np.array(y, dtype='float64')\n"),
     B('relative-difference-computed-in-the-callers-buffer', 'aggregates/rolling_stats.py',
       "    x = np.asarray(x).astype('float64')\n    y = np.asarray(y).astype('float64')\n", "    x = np.asarray(x).astype('float64', copy=False)\n    y = np.asarray(y).astype('float64', copy=False)\n", 'R-C07-25'),
     B('topk-by-unbounded-partition', 'signals/topk_accuracy.py',
